@@ -710,4 +710,79 @@ theorem run_wf (ops : StoreOps σ ρ) (P : Int → Prop) (h : List Op) (st : Srv
     exact ih _ (step_wf ops P st e hw (he e List.mem_cons_self)) (fun e' he' => he e' (List.mem_cons_of_mem _ he'))
 
 
+/-! ## stopping a k8s store -/
+
+theorem newKStore_wf (p : Bool) : (newKStore p).WF := by intro h; cases h
+
+theorem kstop_wf (s : KStore) (api : Bool) (h : s.WF) : (s.stop api).1.WF := by
+  unfold KStore.stop
+  split
+  · exact h
+  · split
+    · exact h
+    · intro _; rfl
+
+/-- a `Stop()` that returned nil leaves no flusher behind -/
+theorem kstop_ok (s : KStore) (api : Bool) (h : s.WF) (hok : (s.stop api).2 = true) :
+    (s.stop api).1.flusherRunning = false := by
+  unfold KStore.stop at hok ⊢
+  by_cases hs : s.stopped = true
+  · simp only [hs, if_true]
+    unfold KStore.flusherRunning
+    simp [h hs]
+  · simp only [hs] at hok ⊢
+    by_cases h2 : (!s.flushOk api) = true
+    · simp [h2] at hok
+    · simp only [h2]
+      unfold KStore.flusherRunning; simp
+
+theorem stopWithRetry_wf (fuel : Nat) (api : List Bool) (s : KStore) (h : s.WF) : (stopWithRetry fuel api s).1.WF := by
+  induction fuel generalizing api s with
+  | zero => exact h
+  | succ fuel ih =>
+    unfold stopWithRetry
+    simp only
+    split
+    · exact kstop_wf s _ h
+    · exact ih _ _ (kstop_wf s _ h)
+
+theorem stopWithRetry_ok (fuel : Nat) (api : List Bool) (s : KStore) (h : s.WF)
+    (hok : (stopWithRetry fuel api s).2.1 = true) : (stopWithRetry fuel api s).1.flusherRunning = false := by
+  induction fuel generalizing api s with
+  | zero => simp [stopWithRetry] at hok
+  | succ fuel ih =>
+    unfold stopWithRetry at hok ⊢
+    simp only at hok ⊢
+    split
+    · rename_i h1; exact kstop_ok s _ h h1
+    · rename_i h1
+      simp only [h1] at hok
+      exact ih _ _ (kstop_wf s _ h) hok
+
+theorem kstop_api_ok (s : KStore) : (s.stop true).2 = true := by
+  unfold KStore.stop KStore.flushOk
+  split
+  · rfl
+  · simp
+
+/-- the retry loop succeeds as soon as the API accepts writes during one of its attempts -/
+theorem stopWithRetry_succeeds (fuel : Nat) (api : List Bool) (s : KStore) (i : Nat) (hi : i < fuel)
+    (hapi : api.getD i true = true) : (stopWithRetry fuel api s).2.1 = true := by
+  induction fuel generalizing api s i with
+  | zero => omega
+  | succ fuel ih =>
+    unfold stopWithRetry
+    simp only
+    split
+    · rfl
+    · rename_i h1
+      cases i with
+      | zero =>
+        exfalso; apply h1
+        have : api.headD true = true := by cases api <;> simp_all
+        rw [this]; exact kstop_api_ok s
+      | succ j =>
+        have : api.tail.getD j true = true := by cases api <;> simp_all
+        exact ih api.tail _ j (by omega) this
+
 end KG.Lemmas.Shard
